@@ -1330,6 +1330,10 @@ class SymDomain(BaseDomain):
                         raise ModelError("csr_matrix: index out of bounds")
                     out[r, c] = out[r, c] + v
                 return out
+            if isinstance(arg, tuple) and len(arg) == 2 and all(isinstance(x, (int, np.integer)) or (isinstance(x, Poly) and x.is_const()) for x in arg):
+                return mk(tuple(_dim(x) for x in arg), dtype_kind(k.get("dtype")) or "real", sparse=True)      # csr_matrix((m, n)): empty matrix
+            if isinstance(arg, (list, tuple)):
+                return csr_matrix(d.np_array(arg), shape=shape)
             raise Unsupported("csr_matrix constructor form")
 
         return Namespace("scipy.sparse", csr_matrix=csr_matrix, csc_matrix=csr_matrix,
@@ -1384,6 +1388,7 @@ class SymDomain(BaseDomain):
     def binop(self, interp, op, a, b, node):
         if op is operator.truediv and interp is not None and isinstance(b, (Poly, SymArr)):
             # log divisions by symbolic scalars together with the number of decisions taken so far (zero-divisor rules)
+            self.last_division_numerator = a
             self.divisions.append((b, node, interp.where(node), len(interp.decision_log)))
         if isinstance(a, np.integer):
             a = int(a)
@@ -1404,7 +1409,18 @@ class SymDomain(BaseDomain):
                 aa = np.asarray(self.np_array(aa), dtype=object)
             if isinstance(bb, (list, tuple)):
                 bb = np.asarray(self.np_array(bb), dtype=object)
-            if isinstance(a, SymArr) and a.sparse and isinstance(b, SymArr) and op is operator.mul:
+            if isinstance(a, SymArr) and a.sparse and isinstance(b, SymArr) and op is operator.mul and b.ndim >= 1 and b.size > 1:
+                # scipy: `*` is the MATRIX product for the spmatrix classes (csr_matrix ...) and the ELEMENTWISE product for the sparse
+                # array classes (csr_array ...): the meaning of the expression depends on which container the caller used
+                ctx = getattr(self, "ctx", None)
+                if ctx is not None and interp is not None:
+                    fi = interp.call_stack[-1] if interp.call_stack else None
+                    where = interp.where(node)
+                    ctx.ob(f"{ctx.prop}.E3.sparse-star", f"sparse * array at {where}", False,
+                           "`*` between a scipy sparse operand and an array: matrix product for sparse matrices, elementwise product for "
+                           "sparse arrays - the result depends on the container class of the operand (use @)",
+                           where=getattr(fi, "where", where), construct="sparse * array (container-dependent meaning)", loc=where)
+                    return self.matmul(a, b) if a.ndim == 2 and b.ndim in (1, 2) and a.shape[1] == b.shape[0] else SymArr(op(aa, bb), combine_kind(a, b), True)
                 raise Unsupported("sparse * array")
             try:
                 r = op(aa, bb)
@@ -1598,7 +1614,11 @@ class SymDomain(BaseDomain):
                 return power
             if attr == "multiply":
                 return lambda b: SymArr(np.asarray(a, dtype=object) * np.asarray(b, dtype=object), a.kind, True)
-            if attr in ("data", "indices", "indptr", "nnz", "row", "col"):
+            if attr == "nnz":
+                # number of stored entries of the canonical storage of THIS matrix: its entries that are not identically zero
+                # (explicitly stored zeros / duplicates are a property of a particular container, see .data)
+                return int(sum(1 for v in a.reshape(-1) if not (hasattr(v, "is_zero") and v.is_zero()) and not (is_number(v) and not isinstance(v, Poly) and v == 0)))
+            if attr in ("data", "indices", "indptr", "row", "col"):
                 # raw storage of a scipy sparse matrix: representation dependent (duplicate entries that sum to the value,
                 # explicit zeros, unsorted indices are all legal) - nothing about it follows from the matrix entries
                 return Opaque(f"sparse storage .{attr}")
